@@ -24,6 +24,7 @@ import os
 import pathlib
 import re
 import shutil
+import time
 import traceback
 
 import h5py
@@ -128,7 +129,8 @@ def call_stage(fn, stages, **plan):
     faults.arm(stages, **plan)
     res = {'ok': True, 'error': None, 'etype': None}
     old = signal.signal(signal.SIGALRM, _on_alarm)
-    signal.alarm(HANG_LIMIT_S)
+    t_start = time.time()
+    outer_left = signal.alarm(HANG_LIMIT_S)          # seconds left on the check's overall watchdog (0 = none)
     with quiet():
         try:
             res['value'] = fn()
@@ -145,6 +147,8 @@ def call_stage(fn, stages, **plan):
         finally:
             signal.alarm(0)
             signal.signal(signal.SIGALRM, old)
+            if outer_left:
+                signal.alarm(max(1, int(outer_left - (time.time() - t_start))))
         import gc
         gc.collect()
     res['exit_codes'] = faults.settle()
